@@ -65,8 +65,8 @@ def run(ctx):
         try:
             spec = runlib.Spec(y)
             text = spec.compile()
-        except ValueError as e:
-            k = re.sub(r"[A-Z]\d?\b", "R", str(e))[:60]
+        except (ValueError, KeyError) as e:    # KeyError: the compiler crashes on some W-outer/Q-inner orders (no program is returned)
+            k = type(e).__name__ + ": " + re.sub(r"[A-Z]\d?\b", "R", str(e))[:60]
             stats["rejected"][k] = stats["rejected"].get(k, 0) + 1
             continue
         stats["compiled"] += 1
@@ -111,7 +111,7 @@ def run(ctx):
         "programs": distinct, "executions": len(cases), "disagreements_checked": bad, "evaluations": len(cases),
         "distinct_nontrivial": distinct, "population": stats, "executions_ok_outside_known_defect_classes": clean_ok,
         "rule": "O[q] = I[a*q + b*s] * F[s] (a in 1..3, b in -3..3, either term order) and the 2-D variant O[p,q] = I[p+r, a*q+b*s] * F[r,s]; loop orders over "
-                "{Q or W levels, S, P or H, R} in any interleaving; optional 1-2 shape levels (uniform/nway, literal/symbolic) on Q with W following; "
+                "{Q or W levels, S, P or H, R} in any interleaving, or over both the Q and the W innermost level with S derived; optional 1-2 shape levels (uniform/nway, literal/symbolic) on Q with W following; "
                 "extents consistent with the access; 2-3 inputs each",
         "samples": [{"yaml": cases[i].spec.yaml, "extents": cases[i].extents, "flags": cases[i].meta["flags"], "result": cases[i].raw} for i in (0, len(cases) // 2)],
         "trusted_base": ["Coq 8.16.1 kernel + VM; PrimFloat primitives (host binary64)", "Model/Rt.v: project/prune/splitUniform-with-halo/iterRangeShapeRef model",
